@@ -94,3 +94,14 @@ package encryption
 //@ func (*base64Cipher).Decrypt
 //@ prop C13
 //@ ensures[undecodable-is-an-error] ret1(DecodeString) != nil ==> ret1 != nil && ret0 == nil && !called(Decrypt)
+
+// ------------------------------------------------------------------ C05: the PKCE verifier is n bytes from the system's random source, URL-safe
+//@ func GenerateCodeVerifierString
+//@ safety
+//@ prop C05 C19
+//@ requires n >= 0
+//@ at call io.ReadFull assert[fills-all-n-bytes-from-the-system-random-source] arg(io.ReadFull, 0) == rand.Reader && arg(io.ReadFull, 1) == data
+//@     && len(data) == n
+//@ ensures[random-source-failure-is-an-error] ret1(io.ReadFull) != nil ==> ret1 != nil && ret0 == ""
+//@ ensures[verifier-is-the-unpadded-url-safe-encoding-of-those-bytes] ret1 == nil ==> ret1(io.ReadFull) == nil
+//@     && ret0 == b64enc(ret(WithPadding), bytes(data)) && recv(WithPadding) == deref(base64.URLEncoding) && arg(WithPadding, 1) == base64.NoPadding
